@@ -5,7 +5,7 @@ import random
 import re
 
 from .. import common as C
-from ..gen_inv import PlanGen, Plan
+from ..gen_inv import PlanGen, Plan, add_header_twins
 from ..syn_dbg import sexpr, parse_sexpr
 from .. import tref
 from .dispatch_common import plan_summary
@@ -75,6 +75,9 @@ def run(tier, seed, replay=None):
     n = 150 if tier == "quick" else 4000
     plans = [g.basic() for _ in range(n - n // 4)] + [g.lattice() for _ in range(n // 4)]
     rng.shuffle(plans)
+    for p_ in plans:
+        if add_header_twins(p_, rng, 0.12):
+            rep.count("plan:twin-header (mutually generalising ids)")
     # correspondence of the Lean model of the whole grouping front end with the real ImplGroups::parse
     # (accepted plans, overlapping ones that must be rejected, trait arguments, inherent mode)
     corr = plans[: (60 if tier == "quick" else 1500)] + [g.overlap()[0] for _ in range(15 if tier == "quick" else 400)] + \
